@@ -1261,7 +1261,7 @@ impl WriteTransaction {
     }
 
     fn allocate_savepoint(&self) -> Result<(SavepointId, TransactionId)> {
-        let transaction_id = self
+        let (transaction_id, _) = self
             .transaction_tracker
             .register_read_transaction(&self.mem)?;
         let id = self.transaction_tracker.allocate_savepoint(transaction_id);
@@ -2744,11 +2744,13 @@ pub struct ReadTransaction {
 }
 
 impl ReadTransaction {
+    // `root_page` must be the root that was read when `guard` was registered, see
+    // TransactionTracker::register_read_transaction()
     pub(crate) fn new(
         mem: Arc<TransactionalMemory>,
         guard: TransactionGuard,
+        root_page: Option<BtreeHeader>,
     ) -> Result<Self, TransactionError> {
-        let root_page = mem.get_data_root();
         let guard = Arc::new(guard);
         let resolver = PageResolver::new(mem.clone());
         Ok(Self {
